@@ -39,6 +39,7 @@ import (
 	"time"
 
 	lunar_messages "lunar/engine/messages"
+	"lunar/engine/routing"
 	"lunar/engine/streams"
 	stream_config "lunar/engine/streams/config"
 	lunar_context "lunar/engine/streams/lunar-context"
@@ -488,17 +489,20 @@ func writeFiles(dir string, files map[string]string) {
 
 // runTx mirrors the streams branch of routing.processRequest / processResponse.
 func runTx(eng *streams.Stream, shared public_types.SharedStateI[[]byte], tx Tx) (*stream_config.StreamActions, error) {
-	headers := map[string]string{}
+	// readRequestArgs / readResponseArgs: the header block HAProxy sends is parsed by utils.ParseHeaders and its result
+	// becomes the transaction's header map as it is; "headers" of the case is a shorthand for a well-formed block
+	var headers map[string]string
 	if tx.HeaderRaw != "" {
 		raw, _ := base64.StdEncoding.DecodeString(tx.HeaderRaw)
 		s := string(raw)
 		headers = utils.ParseHeaders(&s)
-	}
-	for k, v := range tx.Headers {
-		if headers == nil {
-			headers = map[string]string{}
+	} else {
+		var lines []string
+		for k, v := range tx.Headers {
+			lines = append(lines, k+": "+v+"\r\n") // req.hdrs: every header line ends with CRLF
 		}
-		headers[k] = v
+		s := strings.Join(lines, "")
+		headers = utils.ParseHeaders(&s)
 	}
 	var body []byte
 	if tx.BodyB64 != "" {
@@ -531,7 +535,12 @@ func runTx(eng *streams.Stream, shared public_types.SharedStateI[[]byte], tx Tx)
 			defer api.StoreRequest()
 		}
 		acts := &stream_config.StreamActions{Request: &stream_config.RequestStream{}}
-		return acts, eng.ExecuteFlow(api, acts)
+		err := eng.ExecuteFlow(api, acts)
+		if err == nil {
+			// processRequest: the actions of the flow are folded into the SPOE reply on the message's own arguments
+			_ = routing.VerifGetSPOEReqActions(args, acts.Request.Actions)
+		}
+		return acts, err
 	}
 	name := "lunar-on-response"
 	if tx.Full {
@@ -546,5 +555,9 @@ func runTx(eng *streams.Stream, shared public_types.SharedStateI[[]byte], tx Tx)
 		defer api.DiscardRequest()
 	}
 	acts := &stream_config.StreamActions{Response: &stream_config.ResponseStream{}}
-	return acts, eng.ExecuteFlow(api, acts)
+	err := eng.ExecuteFlow(api, acts)
+	if err == nil {
+		_ = routing.VerifGetSPOERespActions(args, acts.Response.Actions)
+	}
+	return acts, err
 }
